@@ -257,11 +257,30 @@ func Generate(rng *rand.Rand, prop, tier string, gomaxprocs int) *Desc {
 			}
 		}
 		if s.Barrier {
-			// at least Limit non-failing jobs so that the barrier can complete
+			// Optionally a failing job with dependents first: the dependents are
+			// invalidated (ContinueOnError) and must not cost capacity.
+			if rng.Intn(2) == 0 {
+				k := 1 + rng.Intn(4)
+				pre := []JobD{{Out: OutErr, Len: rng.Intn(2)}}
+				for i := 0; i < k; i++ {
+					dep := JobD{Deps: []int{0}}
+					if i > 0 && rng.Intn(2) == 0 {
+						dep.Deps = []int{i} // chain: transitively invalidated
+					}
+					pre = append(pre, dep)
+				}
+				for i := range s.Jobs {
+					for x := range s.Jobs[i].Deps {
+						s.Jobs[i].Deps[x] += len(pre)
+					}
+				}
+				s.Jobs = append(pre, s.Jobs...)
+			}
+			// at least Limit non-failing independent jobs so that the barrier can complete
 			lim := d.Limit(&s)
 			ok := 0
 			for _, j := range s.Jobs {
-				if j.Out == OutOK {
+				if j.Out == OutOK && len(j.Deps) == 0 {
 					ok++
 				}
 			}
